@@ -57,7 +57,7 @@ var gofactsDirs = []string{"cmd/commonflags", "cmd/wuffs", "cmd/wuffs-c", "cmd/w
 
 var watchedImports = map[string]bool{"time": true, "math/rand": true, "math/rand/v2": true, "crypto/rand": true,
 	"runtime": true, "sync": true, "sync/atomic": true, "unsafe": true, "os/user": true, "os/signal": true, "net": true, "reflect": true,
-	"maps": true, "iter": true, "hash/maphash": true, "os/exec": false}
+	"maps": true, "iter": true, "hash/maphash": true, "go/build": true, "os/exec": false}
 
 // modelledFuncs: file -> functions whose body Model/Det.lean mirrors statement by statement.
 var modelledFuncs = map[string]map[string]bool{
@@ -66,7 +66,6 @@ var modelledFuncs = map[string]map[string]bool{
 	"cmd/wuffs-c/release.go": {"(genReleaseHelper).gen": true, "parseIncludes": true, "(genReleaseHelper).parse": true},
 	"cmd/wuffs/gen.go":       {"(genHelper).gen": true, "(genHelper).genDirDependencies": true},
 	"cmd/wuffs/release.go":   {"genreleaseLang": true},
-	"internal/cgen/cgen.go":  {"(gen).genIncludes": true},
 }
 
 var envFuncs = map[string]bool{"os.Getenv": true, "os.LookupEnv": true, "os.Environ": true, "os.Hostname": true,
